@@ -38,6 +38,8 @@ Clauses(X, K, C) ==
         Cl("C03_Returns", IF done THEN K.dom /\ ~RetargetsACall(X) ELSE FALSE, C03_Returns(K)),
         Cl("C03_NoBuriedTerminator", IF done THEN K.dom ELSE FALSE, C03_NoBuriedTerminator(X)),
         Cl("C03_EndpointsAlive", done, C03_EndpointsAlive(X)),
+        Cl("C03_FallthroughAdjacent", IF done THEN K.preOk /\ ObsFarFallthrough(t.pre) = {} ELSE FALSE,
+           C03_FallthroughAdjacent(X)),
         Cl("C05_Completes", dom /\ t.fault = 0, Completed(t)),
         Cl("C05_BlocksInside", dom, C05_BlocksInside(t)),
         Cl("C05_NoOverlap", dom, C05_NoOverlap(t)),
@@ -81,6 +83,7 @@ Diff(name, X, K, C) ==
     [] name = "C03_BranchCall" -> SetDiff(K.exp.bc, ByType(K.obs, {"Branch", "Call"}))
     [] name = "C03_Returns" -> SetDiff(K.exp.ret, ByType(K.obs, {"Return"}))
     [] name = "C03_NoBuriedTerminator" -> Buried(X.t.post)
+    [] name = "C03_FallthroughAdjacent" -> ObsFarFallthrough(X.t.post)
     [] name = "C03_EndpointsAlive" -> <<ObsStale(X.t.post), ObsOddSources(X.t.post)>>
     [] name = "C01_Completes" -> <<X.t.exc, X.t.stage>>
     [] name = "C03_Completes" -> <<X.t.exc, X.t.stage>>
